@@ -753,7 +753,7 @@ def oracle_full(ns, text, expected, full):
 def run(ctx):
     thorough = ctx.tier == "thorough"
     rng = ctx.rng
-    ctx.regen("selconsts")
+    ctx.regen("selconsts", "prefs", "quote")     # prefs/quote: constants of Out.append and helper.string used by the serialiser model
     ctx.coq_build("props/C16.v")
     binary = ctx.ocaml_build("selector")
     cp = VERIF / "corpus" / "C16.json"
